@@ -96,6 +96,14 @@ EXPECT_MUTATED = {'extract_next_field': ['result']}
 #   while ((m = rgx.exec(s)) !== null) for a pattern with the g flag -> fold_left over re_finditer_g0 (m[0] -> the element);
 #   m[0] / m[1] -> m_group0 / m_group1;  for (let i = a; c; i++) body -> i := a; while_fuel .. (body; i := i + 1);  x = null.
 #   Strings are sequences of UTF-16 code units on this side (indices and lengths count units).
+#   exec loop and lastIndex (soundness): `while ((m = R.exec(s)) !== null)` enumerates ALL matches of s only if R.lastIndex is 0
+#   when the loop starts.  It is admitted when R is a NEW object (new RegExp(..) evaluated in this function, directly or through a
+#   local name / a conditional of two such), or when R is a local name and `R.lastIndex = 0;` (the constant) is the statement
+#   before the loop (one-shot: any statement that uses R in between forgets it).  A shared (module-level) pattern without that
+#   reset is refused: another user of the object may have left lastIndex anywhere.  The loop always runs to completion (no break /
+#   return inside loops), which leaves lastIndex = 0 again.
+#   nested call of a MUTATING function (f(.., result)[0], g(f(.., result))): bound first as tmp = f(..) - see FnTr.hoist for
+#   the two side conditions that make the evaluation order unobservable.
 JS_SRC_REL = 'rbql-js/csv_utils.js'
 RX_TABLE_JS = {
     ('^' + FIELD_RX, ''): ('RxField', {'exec'}),
@@ -203,7 +211,8 @@ def coq_type(t):
 class E:
     """a translated expression"""
 
-    def __init__(self, text, ty, parts=None, rxs=None, const=None):
+    def __init__(self, text, ty, parts=None, rxs=None, const=None, fresh=False):
+        self.fresh = fresh        # a pattern object created by this very expression (new RegExp inside the function): lastIndex = 0
         self.text = text
         self.ty = ty
         self.parts = parts        # tuple display: the component expressions
@@ -212,7 +221,8 @@ class E:
 
 
 class Var:
-    def __init__(self, ty, coq, known=None, rxs=None, const=None, lastindex=None):
+    def __init__(self, ty, coq, known=None, rxs=None, const=None, lastindex=None, fresh=False):
+        self.fresh = fresh
         self.lastindex = lastindex    # a sticky pattern whose lastIndex was just assigned: the position (text)
         self.ty = ty
         self.coq = coq
@@ -421,7 +431,7 @@ class FnTr:
                 refuse(node, 'the mutated list %s is used where it could be aliased' % node.id)
             if v.const is not None:
                 return E('true' if v.const else 'false', 'bool', const=v.const)
-            return E(v.coq, v.ty, rxs=v.rxs)
+            return E(v.coq, v.ty, rxs=v.rxs, fresh=v.fresh)
         if node.id in self.mod.consts:
             return E(lit_str(self.mod.consts[node.id]), 'str')
         if node.id in self.mod.rx:
@@ -576,7 +586,7 @@ class FnTr:
         if c.const is not None:
             return a if c.const else b
         rxs = (a.rxs | b.rxs) if a.ty == 'rx' else None
-        return E('(if %s then %s else %s)' % (c.text, a.text, b.text), a.ty, rxs=rxs)
+        return E('(if %s then %s else %s)' % (c.text, a.text, b.text), a.ty, rxs=rxs, fresh=a.fresh and b.fresh)
 
     def e_BinOp(self, node, env):
         a = self.expr(node.left, env)
@@ -755,7 +765,15 @@ class FnTr:
         if LANG.js and isinstance(node, ast.Call) and isinstance(node.func, ast.Attribute) and node.func.attr == 'exec_all':
             r = self.expr(node.func.value, env)
             if r.ty == 'rx':
-                return self.rx_call(node, r, 'exec_all', env), 'g0'
+                text = self.rx_call(node, r, 'exec_all', env)
+                # the loop visits every match of the string only if it starts with lastIndex = 0: the pattern object is new
+                # (created in this function), or `name.lastIndex = 0` was the statement just before
+                if not r.fresh:
+                    fv = node.func.value
+                    if not (isinstance(fv, ast.Name) and fv.id in env and env[fv.id].lastindex == lit_int(0)):
+                        refuse(node, 'exec loop on a shared pattern object whose lastIndex is not known to be 0 here')
+                    self.consumed[-1].append(fv.id)
+                return text, 'g0'
             refuse(node, 'exec loop on a %s' % show_type(r.ty))
         if isinstance(node, ast.Call) and isinstance(node.func, ast.Attribute) and node.func.attr == 'finditer':
             r = self.expr(node.func.value, env)
@@ -808,7 +826,9 @@ class FnTr:
                 pat = self.mod.compile_text(node)
                 if pat is None:
                     refuse(node, 'new RegExp with a non-constant argument')
-                return self.rx_of_text(node, pat)
+                r = self.rx_of_text(node, pat)
+                r.fresh = True            # a new object: its lastIndex is 0
+                return r
             if f.id in self.mod.funcs and f.id not in env:
                 info = self.callee(node, env)
                 if info.partial or info.mutated:
@@ -990,7 +1010,7 @@ class FnTr:
                 e2 = dict(e2)
                 for n in used:
                     if n in e2:
-                        e2[n] = Var(e2[n].ty, e2[n].coq, rxs=e2[n].rxs)
+                        e2[n] = Var(e2[n].ty, e2[n].coq, rxs=e2[n].rxs, fresh=e2[n].fresh)
             return self.block(rest, e2, k)
         self.consumed.append(used)
         try:
@@ -999,29 +1019,47 @@ class FnTr:
             self.consumed.pop()
 
     def hoist(self, st, env):
-        """a call of a PARTIAL translated function nested inside the expression of a simple statement is bound first:
-        tmp = f(..); statement with tmp.  Sound because every expression is pure; refused under a conditional / short-circuit
-        operator (the call would no longer be conditional)."""
+        """a call of a PARTIAL or MUTATING translated function nested inside the expression of a simple statement is bound first:
+        tmp = f(..); statement with tmp.  Sound for a partial callee because every expression is pure (only WHETHER the call is
+        evaluated matters: refused under a conditional / short-circuit operator / comprehension).  Sound for a mutating callee
+        because, in addition, (a) it is the only such call in the statement and (b) the names it mutates occur nowhere else in
+        the statement's expression - so no part of the expression can observe whether the mutation has happened yet."""
         if not isinstance(st, (ast.Return, ast.Assign, ast.AugAssign, ast.Expr)) or st.value is None:
             return None
         tr = self
 
-        def partial_call(n):
-            return tr.is_fn_call(n, env) and tr.infos.get(n.func.id) is not None and tr.infos[n.func.id].partial and not tr.infos[n.func.id].mutated
-        if partial_call(st.value):
+        def bindable(n):
+            return tr.is_fn_call(n, env) and tr.infos.get(n.func.id) is not None and (tr.infos[n.func.id].partial or tr.infos[n.func.id].mutated)
+        if bindable(st.value):
             return None                       # already a statement of its own
-        found = [n for n in ast.walk(st.value) if partial_call(n)]
+        found = [n for n in ast.walk(st.value) if bindable(n)]
         if not found:
             return None
         for n in ast.walk(st.value):
-            if isinstance(n, (ast.IfExp, ast.BoolOp, ast.ListComp, ast.Lambda)) and any(partial_call(x) for x in ast.walk(n)):
-                refuse(st, 'call of a partial function under a conditional expression')
+            if isinstance(n, (ast.IfExp, ast.BoolOp, ast.ListComp, ast.Lambda)) and any(bindable(x) for x in ast.walk(n)):
+                refuse(st, 'call of a partial or mutating function under a conditional expression')
+        mutating = [n for n in found if tr.infos[n.func.id].mutated]
+        if mutating:
+            if len(found) != 1:
+                refuse(st, 'several calls of partial / mutating functions in one expression')
+            call = mutating[0]
+            names = set()
+            for i in tr.infos[call.func.id].mutated:
+                if i >= len(call.args) or not isinstance(call.args[i], ast.Name):
+                    refuse(st, 'argument %d of %s is mutated by it: a plain local name is required' % (i, call.func.id))
+                names.add(call.args[i].id)
+            inside = sum(1 for x in ast.walk(call) if isinstance(x, ast.Name) and x.id in names)
+            total = sum(1 for x in ast.walk(st.value) if isinstance(x, ast.Name) and x.id in names)
+            if inside != len(names) or total != inside:
+                refuse(st, 'the list that %s mutates is mentioned elsewhere in the same expression' % call.func.id)
+        import copy
+        st = copy.deepcopy(st)                # (the statement may be translated again in another copy of a continuation)
         pre = []
 
         class H(ast.NodeTransformer):
             def visit_Call(self, n):
                 self.generic_visit(n)
-                if partial_call(n):
+                if bindable(n):
                     tr.n_hoist += 1
                     name = 'call%d__' % tr.n_hoist
                     a = ast.Assign(targets=[ast.Name(id=name, ctx=ast.Store())], value=n)
@@ -1152,17 +1190,20 @@ class FnTr:
         if len(st.targets) != 1:
             refuse(st, 'multiple assignment targets')
         tg = st.targets[0]
-        # rgx.lastIndex = pos  (a sticky pattern held in a local name)
+        # rgx.lastIndex = pos  (a sticky pattern held in a local name);  rgxp.lastIndex = 0  (a global pattern, before its exec loop)
         if LANG.js and isinstance(tg, ast.Attribute):
-            if not (tg.attr == 'lastIndex' and isinstance(tg.value, ast.Name) and tg.value.id in env and env[tg.value.id].ty == 'rx'
-                    and all('exec_sticky' in methods for _c, methods in env[tg.value.id].rxs)):
-                refuse(st, 'attribute assignment other than <sticky pattern>.lastIndex = position')
+            if not (tg.attr == 'lastIndex' and isinstance(tg.value, ast.Name) and tg.value.id in env and env[tg.value.id].ty == 'rx'):
+                refuse(st, 'attribute assignment other than <pattern>.lastIndex = position')
+            v = env[tg.value.id]
+            sticky = all('exec_sticky' in methods for _c, methods in v.rxs)
+            glob = all('exec_all' in methods for _c, methods in v.rxs)
             pos = self.expr(st.value, env)
             if pos.ty != 'int':
                 refuse(st, 'lastIndex of type %s' % show_type(pos.ty))
-            v = env[tg.value.id]
+            if not sticky and not (glob and pos.text == lit_int(0)):
+                refuse(st, 'lastIndex may be assigned on a sticky pattern (any position) or on a global pattern (the constant 0 only)')
             env2 = dict(env)
-            env2[tg.value.id] = Var(v.ty, v.coq, rxs=v.rxs, lastindex=pos.text)
+            env2[tg.value.id] = Var(v.ty, v.coq, rxs=v.rxs, lastindex=pos.text, fresh=v.fresh)
             return k(env2)
         # l[i] = e   /   l[:k] = e
         if isinstance(tg, ast.Subscript):
@@ -1225,7 +1266,7 @@ class FnTr:
         if e.const is not None and not self.loop_depth:
             env2[name] = Var('bool', cn, const=e.const)
             return k(env2)
-        env2[name] = Var(e.ty, cn, rxs=e.rxs)
+        env2[name] = Var(e.ty, cn, rxs=e.rxs, fresh=e.fresh)
         return mk_let(cn, e.text, k(env2))
 
     def check_rebind(self, st, names, env):
@@ -1570,7 +1611,9 @@ def main():
     head = ('(* GENERATED by harness/translate_csv.py from %s on every run - never committed.\n'
             '   Definitions %s<name>: the translation of the source text; then the committed obligations\n'
             '   (= the hand-written index model %s) and the transferred theorems. *)\n'
-            'From RBQL Require Import Base Csv PyStr %s.\n\n' % (LANG.src_rel, LANG.prefix, 'CsvIxJs.v' if LANG.js else 'CsvIx.v', 'JsStr CsvIxJs' if LANG.js else 'CsvIx'))
+            '(* CsvIx_Proofs is imported BEFORE the definitions: it creates the hint database genhelpers that the helpers below join *)\n'
+            'From RBQL Require Import Base Csv PyStr %s.\n\n' % (LANG.src_rel, LANG.prefix, 'CsvIxJs.v' if LANG.js else 'CsvIx.v',
+                                                                     'JsStr CsvIx CsvIxJs CsvIx_Proofs' if LANG.js else 'CsvIx CsvIx_Proofs'))
     with open(os.path.join(out_dir, base + '.v'), 'w', encoding='utf-8') as f:
         f.write(head + defs + '\n\n' + tmpl)
     thms = re.findall(r'^\s*(?:Theorem|Lemma|Corollary)\s+([A-Za-z0-9_\']+)', re.sub(r'\(\*.*?\*\)', '', tmpl, flags=re.S), flags=re.M)
